@@ -611,6 +611,8 @@ def main():
     ctx = vlib.Ctx('C05')
     K0 = gen_consts()
     vlib.proof_phase(ctx, extra_targets=['Extract/ExtractHash.vo'])
+    # the same theorems over hash_initialize / hash_type_id as translated from fast_perfect_hash.hpp on this run
+    vlib.proof_phase_extra(ctx, 'Properties_C05_source')
     K = gen_consts()
     mdl, log1 = vlib.ocaml_driver('hash_model', 'Extract/ExtractHash.vo', ['ocaml/hash_driver.ml'])
     drv, log2 = vlib.build_cpp('h3_hash', ['harness/h3/hash_driver.cpp'])
